@@ -239,6 +239,10 @@ class Aspire:
         self.training_samples = samples
         logger.info(f"Training with {len(samples.x)} samples")
         history = self.flow.fit(samples.x, **kwargs)
+        if hasattr(self, "_resume_from_default"):
+            # A checkpoint primed by resume_from_file was weighted under the
+            # flow that has just been refitted: do not resume from it.
+            del self._resume_from_default
         defaults = getattr(self, "_checkpoint_defaults", None)
         if checkpoint_path is None and defaults:
             checkpoint_path = defaults["path"]
@@ -248,18 +252,27 @@ class Aspire:
         )
         if checkpoint_path is not None:
             with AspireFile(checkpoint_path, "a") as h5_file:
-                if checkpoint_save_config and not saved_config:
+                # Save flow only if missing or overwrite=True
+                write_flow = overwrite or "flow" not in h5_file
+                if write_flow and "checkpoint" in h5_file:
+                    # An existing checkpoint was weighted under the flow that
+                    # is being replaced; it must not outlive it.
+                    del h5_file["checkpoint"]
+                # The stored config describes the run that wrote the stored
+                # flow/checkpoint: only replace it together with the flow.
+                if (
+                    checkpoint_save_config
+                    and not saved_config
+                    and (write_flow or "aspire_config" not in h5_file)
+                ):
                     if "aspire_config" in h5_file:
                         del h5_file["aspire_config"]
                     self.save_config(h5_file, include_sampler_config=False)
                     if defaults is not None:
                         defaults["saved_config"] = True
-                # Save flow only if missing or overwrite=True
-                if "flow" in h5_file:
-                    if overwrite:
+                if write_flow:
+                    if "flow" in h5_file:
                         del h5_file["flow"]
-                        self.save_flow(h5_file)
-                else:
                     self.save_flow(h5_file)
         return history
 
@@ -490,7 +503,13 @@ class Aspire:
             else:
                 kwargs.setdefault("checkpoint_file_path", checkpoint_path)
                 kwargs.setdefault("checkpoint_every", checkpoint_every)
+            resuming = kwargs.get("resume_from") is not None
             with AspireFile(checkpoint_path, "a") as h5_file:
+                if not resuming and "checkpoint" in h5_file:
+                    # A fresh run starts here: a checkpoint left by an earlier
+                    # run (other flow / sampler) must not be resumable with
+                    # the config and flow written below.
+                    del h5_file["checkpoint"]
                 if checkpoint_save_config:
                     if "aspire_config" in h5_file:
                         del h5_file["aspire_config"]
@@ -502,11 +521,11 @@ class Aspire:
                     saved_config = True
                     if defaults is not None:
                         defaults["saved_config"] = True
-                if (
-                    self.flow is not None
-                    and not saved_flow
-                    and "flow" not in h5_file
-                ):
+                if self.flow is not None:
+                    # The stored flow must be the one the particles of this
+                    # run are weighted under.
+                    if "flow" in h5_file:
+                        del h5_file["flow"]
                     self.save_flow(h5_file)
                     saved_flow = True
                     if defaults is not None:
@@ -633,7 +652,9 @@ class Aspire:
         aspire._checkpoint_defaults = {
             "path": file_path,
             "every": 1,
-            "save_config": False,
+            # keep the stored config in step with the run that continues in
+            # this file (it names the sampler of the stored checkpoint)
+            "save_config": True,
             "save_flow": False,
             "saved_config": False,
             "saved_flow": False,
